@@ -1,10 +1,10 @@
 #!/usr/bin/env python3
 """Extract items verbatim from /repo, splice contracts in, write gen/griddle_verus.rs + gen/meta.json.
 
-Every change made to the repository text is one of the rules R1..R14 (DESIGN.md 4.2); each is
+Every change made to the repository text is one of the rules R1..R17 (DESIGN.md 4.2); each is
 rendered with a marker so that tools/identity.py can undo it mechanically:
    /*<+*/ inserted text /*+>*/            (contracts, ghost code, braces around closure bodies)
-   /*<~ORIGINAL~*/replacement/*~>*/       (R1, R4, R5, R6, R7, R8, R11, R13, R14)
+   /*<~ORIGINAL~*/replacement/*~>*/       (R1, R4, R5, R6, R7, R8, R11, R13, R14, R16, R17)
 Deleted text is only: doc comments, the attributes of R2, cfg attributes already resolved (R3).
 """
 import sys, os, re, json, hashlib
@@ -553,6 +553,8 @@ class Splicer:
         lps = self.loops(body_lo + 1, body_hi)
         r14 = "R14" in fs.rules
         for ls in fs.loops:
+            if ls.kw == "foreach":
+                continue
             same = lps if ls.kw == "any" else [l for l in lps if l["kw"] == ls.kw]
             if ls.ordinal > len(same):
                 raise Undecided("loop anchor lost: %s %s#%d" % (key, ls.kw, ls.ordinal))
@@ -574,6 +576,43 @@ class Splicer:
                 g.hit("R7")
             if ls is not None:
                 self.insert_before(l["brace"], "\n" + clause_lines(ls.clauses, indent="                    ") + "                ")
+        # R16: `RECV.for_each([move] |PAT| { BODY });`  ->  `let mut __it = RECV; while let Some(PAT) = __it.next() { BODY }`
+        #      (libcore's provided Iterator::for_each is fold((), ..), and fold is `while let Some(x) = self.next()`)
+        # R17: `RECV.size_hint()` on a generic iterator -> `iter_size_hint(&RECV)` (trusted identity wrapper, result unconstrained)
+        if "R16" in fs.rules or "R17" in fs.rules:
+            s = [k for k in range(body_lo, body_hi) if toks[k].kind not in ("ws", "comment", "doc")]
+            fe_n = 0
+            for n in range(1, len(s) - 3):
+                if toks[s[n]].text != "." or toks[s[n - 1]].kind != "ident":
+                    continue
+                recv, meth = s[n - 1], toks[s[n + 1]].text
+                if toks[s[n - 2]].text in (".", "::"):
+                    continue  # only a plain local as receiver
+                if meth == "size_hint" and "R17" in fs.rules and toks[s[n + 2]].text == "(" and toks[s[n + 3]].text == ")":
+                    before = rs.text_of(toks, recv, s[n + 3] + 1)
+                    newt = "iter_size_hint(&%s)" % toks[recv].text
+                    self.sub(recv, s[n + 3] + 1, newt, "R17")
+                    g.meta["r13_r14"].append({"fn": key, "rule": "R17", "before": before, "after": newt})
+                if meth == "for_each" and "R16" in fs.rules and toks[s[n + 2]].text == "(" and toks[s[n - 2]].text in (";", "{", "}"):
+                    fe_n += 1
+                    op = s[n + 2]
+                    cl = rs.match_close(toks, op)
+                    inner = [c for c in cls if op < c["params_lo"] and c["body_hi"] <= cl + 1]
+                    after_cl = [x for x in s if x > cl]
+                    if not inner or not inner[0]["block"] or toks[after_cl[0]].text != ";":
+                        raise Undecided("R16: unsupported for_each shape in %s" % key)
+                    c = inner[0]
+                    pat = rs.text_of(toks, c["params_lo"] + 1, c["params_hi"] - 1).strip()
+                    ls = [l_ for l_ in fs.loops if l_.kw == "foreach" and l_.ordinal == fe_n]
+                    inv = ("\n" + clause_lines(ls[0].clauses, indent="                    ") + "                ") if ls else " "
+                    before = rs.text_of(toks, recv, c["body_lo"])
+                    newt = "let mut __it = %s; while let Some(%s) = __it.next()%s" % (toks[recv].text, pat, inv)
+                    self.sub(recv, c["body_lo"], newt, "R16")
+                    self.sub(cl, after_cl[0] + 1, "", "R16")
+                    g.meta["r13_r14"].append({"fn": key, "rule": "R16", "before": before.strip() + " .. });", "after": newt.strip() + " .. }"})
+            for l_ in fs.loops:
+                if l_.kw == "foreach" and l_.ordinal > fe_n:
+                    raise Undecided("loop anchor lost: %s foreach#%d" % (key, l_.ordinal))
         # R13
         if "R13" in fs.rules:
             s = [k for k in range(body_lo, body_hi) if toks[k].kind not in ("ws", "comment", "doc")]
